@@ -225,5 +225,5 @@ EmitAll == IF "EMIT" \in DOMAIN IOEnv /\ IOEnv.EMIT = "1"
                 /\ ndJsonSerialize(IOEnv.VERIF_OUT \o "/powvar.ndjson", SetToSeq(PowVarCases))
            ELSE TRUE
 ASSUME EmitAll
-EmitCase == (done /\ level = 2) => PrintT(<<"CASE", ToJson([tree |-> tree, offers |-> DefOffers(tree), rows |-> [i \in 1..Cardinality(Lattice) |-> Row(SetToSeq(Lattice)[i])]])>>)
+EmitCase == (done /\ level >= 2) => PrintT(<<"CASE", ToJson([tree |-> tree, offers |-> DefOffers(tree), rows |-> [i \in 1..Cardinality(Lattice) |-> Row(SetToSeq(Lattice)[i])]])>>)
 =============================================================================
